@@ -106,5 +106,7 @@ def run_simple(ctx, cases, prop, chk_filter=None, signature=None, relation=None,
         bysig.setdefault(f["signature"], f)
     ordered = list(bysig.values()) + [f for f in failures if bysig[f["signature"]] is not f]
     return {"evaluations": len(cases), "distinct_nontrivial": len(seen), "samples": samples, "distribution": dict(dist),
-            "disagreements": disagreements[:50], "predicate_failures": ordered[:60], "out_of_domain_disagreements": ood,
+            # (those that no predicate failure of their own case explains come first: the cap must never hide them)
+            "disagreements": sorted(disagreements, key=lambda d: bool(d.get("explained_by_predicate_failure")))[:50],
+            "predicate_failures": ordered[:60], "out_of_domain_disagreements": ood,
             "exhaustive": False, "notes": []}
